@@ -174,14 +174,14 @@ def errClassOf (e : String) : String :=
 /-- the clauses of C01–C06 that can be read off one emitted certificate -/
 def specOnCert (der : Bytes) (eff : V1.CertificateContent) (cfgSubject : String) (hasManip : Bool)
     (issuerFinal : Option Db.CertInfo) (issuerFinalDer : Option Bytes) (self : Bool) (verifiesUnder : List Nat)
-    (issuerKeyId : Option Nat) : Option String :=
+    (issuerKeyId : Option Nat) : List String :=
   match X509.decodeDer der with
-  | none => some "C02: certificate is not a single strictly decodable DER value"
+  | none => ["C02: certificate is not a single strictly decodable DER value"]
   | some t =>
-    if t.enc != der then some "C02: re-encoding the decoded certificate does not reproduce it" else
-    if !X509.canonical t && !hasManip then some "C02: a primitive inside the certificate is not in canonical DER form" else
+    if t.enc != der then ["C02: re-encoding the decoded certificate does not reproduce it"] else
+    if !X509.canonical t && !hasManip then ["C02: a primitive inside the certificate is not in canonical DER form"] else
     match X509.decCertificate t with
-    | none => some "C02: not an X.509 Certificate structure"
+    | none => ["C02: not an X.509 Certificate structure"]
     | some c =>
       let issuerBytes : Option Bytes := (issuerFinalDer.bind X509.decodeDer).bind fun it => (X509.decCertificate it).map (·.tbs.subject.enc)
       let checks : List (String × Bool) := [
@@ -226,7 +226,7 @@ def specOnCert (der : Bytes) (eff : V1.CertificateContent) (cfgSubject : String)
           c.tbs.extensions.map (fun e => (e.oid, e.critical)) == eff.extensions.map (fun e => (e.oid.getD [], e.critical)))
       ]
       let _ := issuerFinal
-      firstFail checks
+      (checks.filter (fun c => !c.2)).map (·.1)
 
 
 structure FaultJ where
@@ -364,7 +364,7 @@ def replayRun (tz : Int) (files : List FileJ) (strat : Nat) (fault : Option Faul
       let faultMode := (fault.map (·.mode)).getD ""
       if faultHere && faultMode == "error" then
         -- GenerateArtifacts runs before the write: its errors come first
-        let dummyKey : Gen.PrivKey := ⟨0, 1, ⟨⟨[], none⟩, ⟨[], 0⟩⟩⟩
+        let dummyKey : Gen.PrivKey := ⟨0, if eff.keyAlgorithm < 4 then 0 else 1, ⟨⟨[], none⟩, ⟨[], 0⟩⟩⟩
         match Db.generateArtifacts s pl.alias ⟨1, dummyKey⟩ with
         | .error err => expectUpdate := errClassOf err
         | .ok _ => expectUpdate := "write"
@@ -373,7 +373,7 @@ def replayRun (tz : Int) (files : List FileJ) (strat : Nat) (fault : Option Faul
       let actualDer : Option Bytes := (pemJ.bind (·.cert)).bind fun c => hexToBytes c.der
       let actual : Option X509.Certificate := (actualDer.bind X509.decodeDer).bind X509.decCertificate
       let freshKeyJ : Option KeyJ := (pemJ.bind (·.key)).bind fun k => keys.find? (·.id = k.id.toNat)
-      let dummyKey : Gen.PrivKey := ⟨0, 1, ⟨⟨[], none⟩, ⟨[], 0⟩⟩⟩
+      let dummyKey : Gen.PrivKey := ⟨0, if eff.keyAlgorithm < 4 then 0 else 1, ⟨⟨[], none⟩, ⟨[], 0⟩⟩⟩
       let oracle : Gen.Oracle := ⟨((actual.bind fun c => X509.decInt c.tbs.serialContent).getD 0).toNat, (freshKeyJ.bind KeyJ.toPriv).getD dummyKey⟩
       match Db.generateArtifacts s pl.alias oracle with
       | .error err => expectUpdate := errClassOf err
@@ -432,12 +432,11 @@ def replayRun (tz : Int) (files : List FileJ) (strat : Nat) (fault : Option Faul
      | some q => (q.cert.map (·.der)) == (p.cert.map (·.der)) && q.hash == p.hash && (q.key.map (·.pkcs8)) == (p.key.map (·.pkcs8)) && ranks p.path == ranks p.path
      | none => false)
   -- specification clauses on the directory after a completed run
-  let mut specFail : Option String := none
-  if planMismatch then specFail := some "C11: the set or order of regenerated entities differs from the enabled reasons"
-  if specFail.isNone && !untouchedOk then specFail := some "C10: an artifact that was not planned was modified or removed"
+  let mut specFails : List String := []
+  if planMismatch then specFails := specFails ++ ["C11: the set or order of regenerated entities differs from the enabled reasons"]
+  if !untouchedOk then specFails := specFails ++ ["C10: an artifact that was not planned was modified or removed"]
   if implUpdate == "" then
     for pl in o.plan do
-      if specFail.isSome then break
       match s0.find pl.alias, Db.validateAndMerge s0 pl.alias with
       | some e, .ok eff =>
         let pemJ := post.find? (·.path = artifactFileName e.configPath)
@@ -460,28 +459,28 @@ def replayRun (tz : Int) (files : List FileJ) (strat : Nat) (fault : Option Faul
             if self then (match realKey pemJ with | some k => some k | none => some cj.subjectKey.toNat)
             else match realKey issuerPem with | some k => some k | none => (issuerPem.bind (·.cert)).map (·.subjectKey.toNat)
           if !ownManip && (match realKey pemJ with | some k => k != cj.subjectKey.toNat | none => false) then
-            specFail := some "C05: certificate does not carry the public key of the stored private key"
+            specFails := specFails ++ ["C05: certificate does not carry the public key of the stored private key"]
           let m := eff.manipulations
           let hasManip := m.version.isSome || m.signatureAlgorithm.isSome || m.signatureValue.isSome || m.tbsSignature.isSome || m.tbsPublicKeyAlgorithm.isSome || m.tbsPublicKey.isSome
           let eff' := match (s.find pl.alias) with | some x => x.content | none => eff
           let cfgSubject := match (files.find? (·.path = e.configPath)).bind (·.json) with | some j => Wire.optStr j "subject" | none => ""
-          if specFail.isNone then
-            specFail := specOnCert der eff' cfgSubject hasManip none issuerDer self (cj.verifiesUnder.getD []) issuerKeyId
-          if specFail.isNone && conformantCfg eff && cj.x509 == some false then
-            specFail := some "C02: an independent X.509 parser (crypto/x509) rejects the certificate"
-          if specFail.isNone && (pemJ.bind (·.key)).isNone && (pemJ.bind (·.csr)).isNone then
-            specFail := some "C12: generated entity has no key material"
-          if specFail.isNone && (pemJ.map (·.hash)).getD none == none then
-            specFail := some "C10: generated file carries no configuration hash line"
-        | none => specFail := some "planned entity has no certificate after a successful run"
+          specFails := specFails ++ specOnCert der eff' cfgSubject hasManip none issuerDer self (cj.verifiesUnder.getD []) issuerKeyId
+          if conformantCfg eff && cj.x509 == some false then
+            specFails := specFails ++ ["C02: an independent X.509 parser (crypto/x509) rejects the certificate"]
+          if (pemJ.bind (·.key)).isNone && (pemJ.bind (·.csr)).isNone then
+            specFails := specFails ++ ["C12: generated entity has no key material"]
+          if (pemJ.map (·.hash)).getD none == none then
+            specFails := specFails ++ ["C10: generated file carries no configuration hash line"]
+        | none => specFails := specFails ++ ["planned entity has no certificate after a successful run"]
       | _, _ => pure ()
   let allowed := o.plan.filterMap fun pl => (s0.find pl.alias).map fun e => artifactFileName e.configPath
-  if specFail.isNone && !(o.writes.all allowed.contains) then specFail := some "C10: a file other than the planned artifact files was written"
-  if specFail.isNone && !o.nonPemUnchanged then specFail := some "C10: a configuration, profile or unrelated file was modified or created"
-  if specFail.isNone && fault.isSome && (fault.map (·.mode)) == some "error" && expectUpdate == "write" && o.updateErr != "write" then
-    specFail := some "C15: a write error was not reported as a failed run"
+  if !(o.writes.all allowed.contains) then specFails := specFails ++ ["C10: a file other than the planned artifact files was written"]
+  if !o.nonPemUnchanged then specFails := specFails ++ ["C10: a configuration, profile or unrelated file was modified or created"]
+  if fault.isSome && (fault.map (·.mode)) == some "error" && expectUpdate == "write" && o.updateErr != "write" then
+    specFails := specFails ++ ["C15: a write error was not reported as a failed run"]
+  let specFail := specFails.head?
   let badCheck := checks.find? (!·.ok)
-  let allClauses := specFail.toList ++ (checks.filter (fun c => !c.ok && c.clause.startsWith "C")).map (·.clause)
+  let allClauses := specFails ++ (checks.filter (fun c => !c.ok && c.clause.startsWith "C")).map (·.clause)
   let specClause := match specFail with
     | some c => c
     | none => match badCheck with
